@@ -1513,3 +1513,150 @@ func ruleClauseIdentity(c *Ctx, r *Report) {
 	}
 	r.analysed(rule, fname(same))
 }
+
+// ---------------------------------------------------------------------------
+// C20: R-STAGING-INIT-GUARDED — added after seed C20g.  The loader collects a text's clauses in a staging
+// table that lives as long as the text is being loaded - across include/1, which re-enters the compile function
+// with the SAME text.  The table is therefore created at most once: every store of a fresh map into text.clauses
+// lies under the fact that the field is still nil.  An unconditional initialisation looks like a tidy-up and
+// throws away, at every include/1, everything the text has defined so far (and the load reports success).
+func ruleStagingInitGuarded(c *Ctx, r *Report) {
+	const rule = "R-STAGING-INIT-GUARDED"
+	desc := "the staging table of a text is created only where it does not exist yet"
+	n := 0
+	for _, fn := range c.LibFuncs() {
+		if funcPkg(fn) != c.Engine {
+			continue
+		}
+		k := 0
+		eachInstr(fn, func(in ssa.Instruction) {
+			st, ok := in.(*ssa.Store)
+			if !ok {
+				return
+			}
+			fa, ok := st.Addr.(*ssa.FieldAddr)
+			if !ok || fieldName(fa) != "clauses" || !isEngNamed(deref(fa.X.Type()), "text") {
+				return
+			}
+			if _, isMake := st.Val.(*ssa.MakeMap); !isMake {
+				return
+			}
+			if _, fresh := fa.X.(*ssa.Alloc); fresh {
+				return // the text is being constructed here
+			}
+			n++
+			k++
+			key := fmt.Sprintf("%s/text.clauses=make#%d", fname(fn), k)
+			guarded := false
+			for f := range c.factsAt(in.Block()) {
+				x, op, ok := nilCmp(f.cond)
+				if !ok || (op == token.EQL) != f.pol {
+					continue
+				}
+				if ld, ok := x.(*ssa.UnOp); ok && ld.Op == token.MUL {
+					if fa2, ok := ld.X.(*ssa.FieldAddr); ok && fa2.Field == fa.Field && isEngNamed(deref(fa2.X.Type()), "text") && c.sameVar(fa2.X, fa.X) {
+						guarded = true
+					}
+				}
+			}
+			if guarded {
+				r.ok(rule, key, c.at(in), desc, "under text.clauses == nil", true)
+			} else {
+				r.bad(rule, key, c.at(in), desc, "the table is replaced by an empty one unconditionally: a nested load of the same text (include/1) drops every clause and declaration collected before it")
+			}
+		})
+	}
+	if n == 0 {
+		r.info(rule, "scan/stores", "-", desc, "no store of a fresh map into text.clauses outside a constructor")
+	}
+}
+
+// ---------------------------------------------------------------------------
+// R-MERGE-BLOCK (C10; added after seed C10g): one clause term with a top-level disjunction compiles into several
+// stored clauses, and "calling the predicate behaves exactly as that term prescribes" only while these stay in
+// their order. The merge callbacks of asserta/1 and assertz/1 (the closures handed to assertMerge) therefore place
+// the new clauses as a block: inside a loop of such a callback nothing is written to a FIXED slot of a slice and
+// nothing is shifted with copy - pushing the new clauses to the front one at a time reverses them
+// (asserta((p(X) :- X = 1 ; X = 2)) answers 2 first, and a cut in the first alternative no longer guards the second).
+func ruleMergeBlock(c *Ctx, r *Report) {
+	const rule = "R-MERGE-BLOCK"
+	desc := "the clauses compiled from one asserted term are placed as a block, in their order"
+	am := c.fn("assertMerge")
+	if am == nil {
+		r.undecided(rule, "anchor:assertMerge", "-", desc, "assertMerge not found")
+		return
+	}
+	n := 0
+	for _, cs := range c.callSitesOf(am) {
+		for _, a := range cs.Common().Args {
+			var cb *ssa.Function
+			switch x := a.(type) {
+			case *ssa.MakeClosure:
+				cb, _ = x.Fn.(*ssa.Function)
+			case *ssa.Function:
+				cb = x
+			}
+			if cb == nil || cb.Signature.Results().Len() != 1 {
+				continue
+			}
+			n++
+			key := fname(cb) + "/placement"
+			inLoop := func(b *ssa.BasicBlock) bool {
+				for _, s := range b.Succs {
+					if s == b || reachableFromAvoiding(s, b, func(*ssa.BasicBlock, int, ssa.Value) bool { return false }) {
+						return true
+					}
+				}
+				return false
+			}
+			var bad ssa.Instruction
+			why := ""
+			for _, g := range withAnon(cb) {
+				eachInstr(g, func(in ssa.Instruction) {
+					if !inLoop(in.Block()) {
+						return
+					}
+					switch x := in.(type) {
+					case *ssa.Store:
+						if ia, ok := x.Addr.(*ssa.IndexAddr); ok {
+							if _, isLit := ia.X.(*ssa.Alloc); isLit {
+								return // the array behind a slice literal or a variadic argument list
+							}
+							if _, isConst := ia.Index.(*ssa.Const); isConst {
+								bad, why = in, "every round of the loop writes the same slot of the slice"
+							}
+						}
+					case *ssa.Call:
+						if b, ok := x.Call.Value.(*ssa.Builtin); ok && b.Name() == "copy" {
+							bad, why = in, "every round of the loop shifts the slice with copy"
+						}
+						if b, ok := x.Call.Value.(*ssa.Builtin); ok && b.Name() == "append" && len(x.Call.Args) == 2 {
+							// append(one, acc...) in a loop: what was collected so far goes BEHIND the new element
+							tail := x.Call.Args[1]
+							if _, isPhi := tail.(*ssa.Phi); isPhi {
+								bad, why = in, "every round of the loop appends what was collected so far behind the next element"
+							} else if u, isLoad := tail.(*ssa.UnOp); isLoad && u.Op == token.MUL {
+								if cell := c.varCell(u.X); cell != nil {
+									for _, st := range c.storesTo(cell) {
+										if st.Val == ssa.Value(x) {
+											bad, why = in, "every round of the loop appends what was collected so far behind the next element"
+										}
+									}
+								}
+							}
+						}
+					}
+				})
+			}
+			if bad == nil {
+				r.ok(rule, key, c.Pos(cb.Pos()), desc, "no loop of the callback writes a fixed slot or shifts the slice", true)
+			} else {
+				r.bad(rule, key, c.at(bad), desc, why+": the new clauses are pushed in one at a time and end up in reverse order")
+			}
+		}
+	}
+	if n == 0 {
+		r.undecided(rule, "scan/merge-callbacks", "-", desc, "no merge callback passed to assertMerge")
+	}
+	r.analysed(rule, fmt.Sprintf("%d merge callbacks of assertMerge", n))
+}
